@@ -85,7 +85,7 @@ class Gen:
 
     def call(self, ints, bools, allow_decl):
         name, rt, np = self.rng.choice(self.sigs)
-        args = [self.opd(ints, 1) for _ in range(np)]
+        args = [self.opd_push(ints, 1) for _ in range(np)]
         r = self.rng.random()
         if rt == 'int' and allow_decl and r < 0.4:
             x = self.fresh('x')
@@ -107,6 +107,14 @@ class Gen:
             return ('assdiv', self.rng.choice(ints), op, a, b), ints, bools
         return ('incdiv', self.rng.choice(ints), op, b), ints, bools
 
+    def opd_push(self, ints, depth=2, no_char=False):
+        """an operand for a push context (declaration initialiser, call / write argument): no `tr` at the root;
+        no_char: write('a') writes the byte, so a bare char literal is not an int there"""
+        while True:
+            a = self.opd(ints, depth)
+            if a[0] != 'tr' and not (no_char and a[0] == 'c'):
+                return a
+
     def fresh(self, prefix):
         self.n += 1
         return '%s%d' % (prefix, self.n)
@@ -115,6 +123,12 @@ class Gen:
         r = self.rng.random()
         if self.bools_now and r < 0.12:                     # a bool local read as an int: (q is byte) is int
             return ('bi', self.rng.choice(self.bools_now))
+        if self.rng.random() < 0.05:                        # a char literal used as an int
+            return ('c', self.rng.choice(CHARS))
+        if depth > 0 and self.rng.random() < 0.07:          # (e is byte) is int for a global / a computed value
+            inner = self.opd(ints, depth - 1)
+            if inner[0] in ('ar', 'un') or (inner[0] == 'v' and inner[1] in self.globs):
+                return ('tr', inner)
         locs = [v for v in ints if v not in self.globs]
         if locs and self.rng.random() < 0.06:               # the low byte of an int local: (x is byte) is int
             return ('lo', self.rng.choice(locs))
@@ -147,7 +161,7 @@ class Gen:
             if not allow_decl:
                 return ('writeln',), ints, bools
             name = self.fresh('x')
-            return ('decli', name, self.opd(ints)), ints + [name], bools
+            return ('decli', name, self.opd_push(ints)), ints + [name], bools
         r = self.rng.random()
         if allow_decl and (self.globs or self.bglobs) and r < 0.03:   # a local that shadows a global (once per function)
             free = [g for g in self.globs + self.bglobs if g not in self.shadowed]
@@ -156,7 +170,7 @@ class Gen:
                 self.shadowed.add(name)
                 if name in self.bglobs:
                     return ('declb', name, self.bexp(ints, bools, 1)), ints, bools
-                return ('decli', name, self.opd(ints)), ints, bools
+                return ('decli', name, self.opd_push(ints)), ints, bools
         if self.sigs and r < 0.14:
             return self.call(ints, bools, allow_decl)
         if r < 0.22:
@@ -164,7 +178,7 @@ class Gen:
         r = self.rng.random()
         if allow_decl and r < 0.18:
             name = self.fresh('x')                       # (hidc rejects shadowing: no redeclaration)
-            return ('decli', name, self.opd(ints)), ints + [name], bools
+            return ('decli', name, self.opd_push(ints)), ints + [name], bools
         if allow_decl and r < 0.28:
             name = self.fresh('q')
             return ('declb', name, self.bexp(ints, bools, self.rng.randint(0, 2))), ints, bools + [name]
@@ -177,7 +191,7 @@ class Gen:
         if r < 0.95:
             k = self.rng.random()
             if k < 0.22:
-                return ('writei', self.rng.random() < 0.4, self.opd(ints)), ints, bools
+                return ('writei', self.rng.random() < 0.4, self.opd_push(ints, no_char=True)), ints, bools
             if k < 0.36:
                 return ('writeb', self.rng.random() < 0.4, self.bexp(ints, bools, self.rng.randint(0, 2))), ints, bools
             if k < 0.55:
@@ -206,7 +220,7 @@ class Gen:
                 init, i2, b2 = (None, ints, bools)
                 if self.rng.random() < 0.8:
                     name = self.fresh('i')
-                    init, i2 = ('decli', name, self.opd(ints)), ints + [name]
+                    init, i2 = ('decli', name, self.opd_push(ints)), ints + [name]
                 cond = self.bexp(i2, b2, 1) if self.rng.random() < 0.9 else None
                 cont = None
                 if i2 and self.rng.random() < 0.85:
@@ -256,6 +270,10 @@ def opd_src(a):
         return str(a[1]) if a[1] >= 0 else '(%d)' % a[1]
     if a[0] in ('bi', 'lo'):
         return '((%s is byte) is int)' % a[1]
+    if a[0] == 'tr':
+        return '((%s is byte) is int)' % opd_src(a[1])
+    if a[0] == 'c':
+        return "'%s'" % a[1]
     if a[0] == 'un':
         return '(%s%s)' % ('-' if a[1] == 'neg' else '+', opd_src(a[2]))
     return '(%s %s %s)' % (opd_src(a[2]), AOPS[a[1]], opd_src(a[3]))
@@ -443,9 +461,9 @@ def convert_func(func, mods):
 
     def opd(o):
         T = type(o)
-        if T is A.IntValue:
+        if T is A.IntValue or T is A.ByteValue:             # (a byte literal: the right-hand side of `x op= 'c'`)
             if o.is_char and 0 <= o.data <= 255:
-                raise Outside('char literal as int')
+                return '(c %d)' % o.data                     # printed as a char literal
             return '(n %d)' % o.data
         if T is A.VariableLookup:
             k, i = var(str(o.var.name))
@@ -461,9 +479,17 @@ def convert_func(func, mods):
             return '(byte %d)' % j
         if T is A.ByteToInt and type(o.expr) is A.IntToByte and type(o.expr.expr) is A.VariableLookup:
             k, i = var(str(o.expr.expr.var.name))            # (x is byte) is int, x an int local
+            if k == 'g':
+                return '(trunc (glob %d))' % i               # an int global: StateByte
             if k != 'i':
                 raise Outside('low byte of a non-local')
             return '(low %d)' % i
+        if T is A.ByteToInt and type(o.expr) is A.IntToByte:
+            inner = o.expr.expr                              # (e is byte) is int: e a global or computed
+            if type(inner) in ar_names or type(inner) in (O.Neg, O.Pos) or \
+                    (type(inner) is A.VariableLookup and var(str(inner.var.name))[0] == 'g'):
+                return '(trunc %s)' % opd(inner)
+            raise Outside('byte cast of ' + type(inner).__name__)
         if T in ar_names:
             return '(ar %s %s %s)' % (ar_names[T], opd(o.left), opd(o.right))
         if T in (O.Neg, O.Pos):
@@ -496,7 +522,10 @@ def convert_func(func, mods):
     def user_call(x):
         """(f, args) if x is a call of one of the program's functions"""
         if isinstance(x, A.FuncCall) and str(x.func) not in ('write', 'writeln'):
-            return fidx(str(x.func)), ' '.join(opd(a) for a in x.args)
+            args = [opd(a) for a in x.args]
+            if any(a.startswith('(trunc ') for a in args):
+                raise Outside('byte cast of a computed value as an argument')
+            return fidx(str(x.func)), ' '.join(args)
         return None
 
     def block(b):
@@ -519,6 +548,8 @@ def convert_func(func, mods):
                     r = '(decldiv %s %s %s)' % (div_names[type(s.init)], opd(s.init.left), opd(s.init.right))
                 else:
                     r = '(decli %s)' % opd(s.init)
+                    if r.startswith('(decli (trunc '):
+                        raise Outside('byte cast of a computed value as an initialiser')
                 sc.declare(name, 'i')
                 return r
             if s.var.type == DT.BOOL:
@@ -569,7 +600,10 @@ def convert_func(func, mods):
             if name == 'writeln' and not s.args:
                 return '(writeln)'
             if name in ('write', 'writeln') and len(s.args) == 1 and s.args[0].type == DT.INT:
-                return '(writei %d %s)' % (1 if name == 'writeln' else 0, opd(s.args[0]))
+                a0 = opd(s.args[0])
+                if a0.startswith('(trunc '):
+                    raise Outside('byte cast of a computed value as an argument')
+                return '(writei %d %s)' % (1 if name == 'writeln' else 0, a0)
             if name in ('write', 'writeln') and len(s.args) == 1 and s.args[0].type == DT.BOOL:
                 return '(writeb %d %s)' % (1 if name == 'writeln' else 0, bexp(s.args[0]))
             if name == 'write' and len(s.args) == 1:
@@ -990,7 +1024,9 @@ def run(tier, seed, workdir):
                                      ('under_write_is_byte', r'\(write \(byte \((low|byte) \d'),
                                      ('as_comparison_operand', r'\(cmp \w+ \((low|byte) \d'),
                                      ('as_arithmetic_operand', r'\(ar \w+ (\((i|n|glob) -?\d+\) )?\((low|byte) \d'),
-                                     ('assigned_to_global', r'\(assg \d+ \((low|byte) \d')):
+                                     ('assigned_to_global', r'\(assg \d+ \((low|byte) \d'),
+                                     ('byte_cast_of_global', r'\(trunc \(glob '), ('byte_cast_of_computed', r'\(trunc \((ar|un) '),
+                                     ('byte_cast_into_global', r'\(assg \d+ \(trunc '), ('char_literal_as_int', r'\(c \d')):
                         if re.search(pat, r[3]):
                             dist['byte_reads'][key] += 1
                 dist['lines_per_program'][min(len(r[1]) // 50 * 50, 500)] += 1
